@@ -283,8 +283,20 @@ func c06Deliver(lab *vLab, res c06E2ECase, caps []vDatagram, payloads [][]byte, 
 	synctest.Wait()
 	before := lab.Net.count()
 	seen := 0
+	ccsSeq := uint64(1 << 20)
 	for _, idx := range script {
-		lab.Net.deliver("client", "server", caps[idx].Data)
+		if idx < 0 {
+			// a repeated / forged ChangeCipherSpec: epoch 0, a sequence number not used before, body 01.
+			// It announces the epoch the peer is already in and must change nothing.
+			ccsSeq++
+			rec := []byte{20, 254, 253, 0, 0, 0, 0, 0, 0, 0, 0, 0, 1, 1}
+			for i := 0; i < 6; i++ {
+				rec[10-i] = byte(ccsSeq >> (8 * uint(i)))
+			}
+			lab.Net.deliver("client", "server", rec)
+		} else {
+			lab.Net.deliver("client", "server", caps[idx].Data)
+		}
 		synctest.Wait()
 		reads := lab.Client.reads()
 		got := -1
@@ -325,14 +337,14 @@ func TestVerifC06E2E(t *testing.T) {
 	for l := 1; l <= maxL; l++ {
 		total := 1
 		for i := 0; i < l; i++ {
-			total *= 3
+			total *= 4
 		}
 		for code := 0; code < total; code++ {
 			sc := make([]int, l)
 			c := code
 			for i := range sc {
-				sc[i] = c % 3
-				c /= 3
+				sc[i] = c%4 - 1 // -1 = a ChangeCipherSpec record between the arrivals
+				c /= 4
 			}
 			jobs = append(jobs, job{"psk-gcm", 2, 3, sc})
 		}
@@ -372,6 +384,9 @@ func TestVerifC06E2E(t *testing.T) {
 			}
 			if sc[j] > hi {
 				hi = sc[j]
+			}
+			if rng.chance(7) {
+				sc[j] = -1
 			}
 		}
 		jobs = append(jobs, job{variants[rng.intn(len(variants))], w, n, sc})
